@@ -27,13 +27,18 @@
    when a non-copyable leaf is used again.  Paths p are index sequences below x.
 
    The verdict of a finished body is "ok" or "error" (reason reuse / leak / frozen /
-   shape).  Ghost variables state the property itself and TLC checks that the
+   shape) together with the place where the error is raised: errAt = k > 0 means statement
+   k of the body raises (the second use, the mutation), errAt = 0 means the error is
+   reported when the function returns.
+   Ghost variables (consumed, mutOwned) state the property itself and TLC checks that the
    flag-and-registry mechanism enforces it:
      LinearOnce       accepted => every non-droppable leaf was consumed exactly once and
                       every non-copyable one at most once (borrowing does not consume)
      NoOwnedMutation  accepted => no mutator was applied to a value derived from an
                       owned argument
-     LeakOrReuseIsError / the converse directions are the definitions of `consumed`.
+     Rejected         a finished body that left a non-droppable leaf unconsumed, consumed it
+                      twice, or mutated owned data has verdict error
+     RegistryExact    the registry is exactly the set of unused non-droppable leaves
    With Emit = TRUE every finished body is printed with its verdict; checks/C22.py renders
    it as a @guppy.comptime function, compiles it with /repo and compares. *)
 EXTENDS Naturals, Sequences, FiniteSets, TLC, Json
@@ -46,6 +51,7 @@ CONSTANTS Types,      \* subset of {"Q","I","F","AQ","AI","TQ","SQ","SA","TA"}
 
 AllMutOps == {"append", "extend", "insert", "pop", "popuse", "remove", "clear", "sort", "reverse",
               "setitem", "setalias", "delitem", "iadd", "imul1", "imul2"}
+ASSUME MutOps \subseteq AllMutOps
 AttrOps == {"setattr_same", "setattr_fresh", "setattr_alias"}
 Paths == {<<>>, <<1>>, <<2>>, <<1, 1>>, <<1, 2>>}
 RetPaths == {<<>>, <<1>>}
@@ -71,9 +77,9 @@ Layout(t) ==
 \* copyable types cannot be borrowed (a plain `x: int` argument)
 ValidSubject(t, o) == ~(t = "I" /\ o = "borrowed")
 
-VARIABLES ty, origin, heap, unused, prog, done, verdict, reason, ret, rshape,
+VARIABLES ty, origin, heap, unused, prog, done, verdict, reason, errAt, ret, rshape,
           consumed, mutOwned
-vars == <<ty, origin, heap, unused, prog, done, verdict, reason, ret, rshape, consumed, mutOwned>>
+vars == <<ty, origin, heap, unused, prog, done, verdict, reason, errAt, ret, rshape, consumed, mutOwned>>
 
 Ids == 1..Len(heap)
 IsLeaf(id) == heap[id].k = "leaf"
@@ -86,7 +92,8 @@ Init ==
                  [Layout(ty)[i] EXCEPT !.frozen = (origin = "owned" /\ Layout(ty)[i].k \in {"list", "struct"}),
                                        !.own = (origin = "owned")]]
     /\ unused = {i \in 1..Len(Layout(ty)) : Layout(ty)[i].k = "leaf" /\ Layout(ty)[i].cls = "lin"}
-    /\ prog = <<>> /\ done = FALSE /\ verdict = "ok" /\ reason = "-" /\ ret = NoRet /\ rshape = <<>>
+    /\ prog = <<>> /\ done = FALSE /\ verdict = "ok" /\ reason = "-" /\ errAt = 0
+    /\ ret = NoRet /\ rshape = <<>>
     /\ consumed = [i \in 1..Len(Layout(ty)) |-> 0]
     /\ mutOwned = FALSE
 
@@ -149,10 +156,11 @@ UsedNow(h0, h1) == {i \in 1..Len(h0) : h0[i].k = "leaf" /\ h1[i].used /\ ~h0[i].
 Bump(cn, evs) == [i \in DOMAIN cn |-> cn[i] + Cardinality({j \in 1..Len(evs) : evs[j].e = "use" /\ evs[j].l = i})]
 
 Stmt(op, p) == prog' = Append(prog, [op |-> op, p |-> p])
-Error(why) == /\ done' = TRUE /\ verdict' = "error" /\ reason' = why
+\* the statement being executed raises: errAt = its (1-based) position in the body
+Error(why) == /\ done' = TRUE /\ verdict' = "error" /\ reason' = why /\ errAt' = Len(prog) + 1
               /\ UNCHANGED <<ret, rshape>>
 Live == ~done /\ Len(prog) < MaxOps
-Keep == UNCHANGED <<done, verdict, reason, ret, rshape>>
+Keep == UNCHANGED <<done, verdict, reason, errAt, ret, rshape>>
 
 \* ---- statements ---------------------------------------------------------------------
 Use(p) ==
@@ -274,7 +282,7 @@ Finish(r) ==
                /\ IF ~lenok THEN verdict' = "error" /\ reason' = "shape"
                   ELSE IF u2 # {} THEN verdict' = "error" /\ reason' = "leak"
                   ELSE verdict' = "ok" /\ reason' = "-"
-    /\ UNCHANGED <<ty, origin, prog, mutOwned>>
+    /\ UNCHANGED <<ty, origin, prog, mutOwned, errAt>>   \* errAt = 0: raised after the body returned
 
 DoUse     == \E p \in Paths : Use(p)
 DoBorrow  == \E p \in Paths : Borrow(p)
@@ -298,6 +306,6 @@ Rejected == (done /\ (mutOwned \/ \E i \in Ids : IsLeaf(i) /\ heap[i].cls = "lin
             => verdict = "error"
 
 Case == [ty |-> ty, origin |-> origin, prog |-> prog, ret |-> ret, rshape |-> rshape,
-         verdict |-> verdict, reason |-> reason]
+         verdict |-> verdict, reason |-> reason, at |-> errAt]
 Out == (Emit /\ done) => PrintT(ToJson(Case))
 =============================================================================
